@@ -308,7 +308,8 @@ PROPS = {
     },
     "C12": {
         "engines": [_eng("cache", 25000, 800000), {"name": "engrep", "quick": 1500, "thorough": 40000, "shards": 8}],
-        "nontrivial": _eng_nontrivial, "rule": _ENG_RULE + "Profile `cache`: rules sharing full and partial transformation lists over the same and different targets, repeated names/values, MATCHED_VAR targets.",
+        "nontrivial": _eng_nontrivial, "rule": _ENG_RULE + "Profile `cache`: rules sharing full and partial transformation lists (shared prefixes of length 1-8, sibling lists that "
+                "differ in the step after the prefix, lists that extend a sibling) over the same and different targets, repeated names/values, MATCHED_VAR targets.",
         "modelled": _ENG_MODELLED + " The cache itself is modelled in lean/Coraza/Model/TfCache.lean; the engine model is cache-free, "
                     "C12_cache_transparent proves them equal, the correspondence compares the real (cached) engine with the cache-free model.",
         "assumptions": _ENG_ASSUME + ["transformations are pure (C14)", "transformationID interning is injective on chains (hypothesis `Interned`)"],
@@ -340,7 +341,9 @@ PROPS = {
     },
     "C08": {
         "engines": [_eng("flow", 25000, 800000), _eng("", 10000, 300000)],
-        "nontrivial": _eng_nontrivial, "rule": _ENG_RULE + "Profile `flow`: skip 1-3, skipAfter with present/absent/earlier markers, allow scopes, chains.",
+        "nontrivial": _eng_nontrivial, "rule": _ENG_RULE + "Profile `flow`: skip 1-3, skipAfter with present/absent/earlier/duplicated markers, allow scopes, chains, "
+                "configuration-time removals/updates of rules placed before and after a marker (a skipAfter scenario of five rules "
+                "in one phase in 30% of the cases).",
         "modelled": _ENG_MODELLED, "assumptions": _ENG_ASSUME, "open_statements": [],
     },
     "C10": {
@@ -406,7 +409,7 @@ PROPS = {
                 "whitespace/NUL runs, invalid UTF-8 and encoder outputs; tfchain: lists of up to 4 transformations through "
                 "executeTransformations / multiMatch. Non-trivial = the step reported a change or an error; distinct = "
                 "distinct protocol line.",
-        "modelled": "modelled and proved: see lean/Coraza/Model/Transformations.lean; transformations outside the model "
+        "modelled": "modelled and proved: see lean/Coraza/Model/Transformations.lean, Transformations2.lean, UrlDecodeUni.lean; transformations outside the model "
                     "(or inputs outside a model's fragment, e.g. non-ASCII for lowercase) are covered by the monitor "
                     "predicate only (verdict X): flag soundness, purity, no panic on the observed output.",
         "assumptions": [
